@@ -61,12 +61,21 @@ def SIGNAL_MESSAGES():
     return sm
 
 
-def safe_readlines(handle, hint=-1):
-    """Attempts to read lines without throwing an error."""
+def safe_readlines(handle, hint=-1, lock=None):
+    """Attempts to read lines without throwing an error.
+
+    ``lock`` is the lock of the proc that appends to *handle* from another
+    thread (``PopenThread.lock``); reading without it races with the
+    writer's tell/seek/write/seek sequence and re-reads a chunk.
+    """
     if handle is None:
         return []
     try:
-        lines = handle.readlines(hint)
+        if lock is None:
+            lines = handle.readlines(hint)
+        else:
+            with lock:
+                lines = handle.readlines(hint)
     except OSError:
         lines = []
     return lines
@@ -358,6 +367,10 @@ class CommandPipeline:
             stderr = stderr.buffer
         if stderr is not None and not isinstance(stderr, self.nonblocking):
             stderr = NonBlockingFDReader(stderr.fileno(), timeout=timeout)
+        # in-memory buffers of a PopenThread are appended to under proc.lock
+        lock = getattr(proc, "lock", None)
+        out_lock = lock if isinstance(stdout, io.BytesIO) else None
+        err_lock = lock if isinstance(stderr, io.BytesIO) else None
         # read from process while it is running
         check_prev_done = len(self.procs) == 1
         prev_end_time = None
@@ -385,11 +398,11 @@ class CommandPipeline:
             # (e.g. sleep) and get interrupted by Ctrl+C.  Reading first
             # ensures that output already produced by the last process
             # (e.g. echo) is captured in self.lines regardless.
-            stdout_lines = safe_readlines(stdout, 1024)
+            stdout_lines = safe_readlines(stdout, 1024, out_lock)
             i = len(stdout_lines)
             if i != 0:
                 yield from stdout_lines
-            stderr_lines = safe_readlines(stderr, 1024)
+            stderr_lines = safe_readlines(stderr, 1024, err_lock)
             j = len(stderr_lines)
             if j != 0:
                 self.stream_stderr(stderr_lines)
@@ -440,12 +453,12 @@ class CommandPipeline:
         proc.prevs_are_closed = True
 
         # read from process now that it is over
-        yield from safe_readlines(stdout)
-        self.stream_stderr(safe_readlines(stderr))
+        yield from safe_readlines(stdout, lock=out_lock)
+        self.stream_stderr(safe_readlines(stderr, lock=err_lock))
         proc.wait()
         self._endtime()
-        yield from safe_readlines(stdout)
-        self.stream_stderr(safe_readlines(stderr))
+        yield from safe_readlines(stdout, lock=out_lock)
+        self.stream_stderr(safe_readlines(stderr, lock=err_lock))
         if self.captured == "object":
             self.end(tee_output=False)
 
